@@ -71,6 +71,8 @@ theorem LInv.init : LInv {} := by
 
 abbrev R := LParams.repaired
 
+@[simp] theorem R_wait : R.waitOnExit = true := rfl
+
 /-- the backend thread (if any) drained and joined, the once-flag fresh -/
 def Life.joinedAll (s : Life) : Life := { s with running := false, onceDone := false, workerTid := 0, joined := s.spawned }
 
